@@ -1,9 +1,154 @@
+import Std.Data.HashMap
+import Std.Data.HashSet
 import RegexVerif.Sexp
+import RegexVerif.Model.Class
+import RegexVerif.Generated.Class
 
 namespace RegexVerif.Driver
 open RegexVerif Sexp
+open RegexVerif.Class
 
-/-- protocol lines with head `c16` (stub) -/
-def handleC16 (_args : List Sexp) : String := "(unimplemented)"
+/-! Driver glue for C16 (unverified IO code).
+
+Class syntax on the wire: `(cls (rs f1 l1 f2 l2 …) (cs id1 neg1 id2 neg2 …) neg anything bitmap sub?)`.
+Oracle rows: `(oracle (id r1 r2 …) …)` list, per category id, the runes (among those that can be
+asked about) that ARE in the category.  -/
+
+private def pairs : List Nat → List (Nat × Nat)
+  | a :: b :: rest => (a, b) :: pairs rest
+  | _ => []
+
+private def catPairs : List Nat → List (Nat × Bool)
+  | a :: b :: rest => (a, b != 0) :: catPairs rest
+  | _ => []
+
+private def unpairs (ps : List (Nat × Nat)) : List Nat := ps.flatMap (fun p => [p.1, p.2])
+private def uncat (ps : List (Nat × Bool)) : List Nat := ps.flatMap (fun p => [p.1, if p.2 then 1 else 0])
+
+private partial def parseClass (e : Sexp) : Option Class :=
+  match tagged? "cls" e with
+  | some (rs :: cs :: neg :: anything :: _bitmap :: rest) =>
+    match tagged? "rs" rs, tagged? "cs" cs, neg.bool?, anything.bool? with
+    | some rl, some cl, some ng, some an =>
+      match (Sexp.list rl).nats?, (Sexp.list cl).nats? with
+      | some rn, some cn =>
+        let f : Flat := { ranges := pairs rn, cats := catPairs cn, neg := ng, anything := an }
+        match rest with
+        | [] => some (.leaf f)
+        | s :: _ => (parseClass s).map (fun sc => .minus f sc)
+      | _, _ => none
+    | _, _, _, _ => none
+  | _ => none
+
+private def topBitmap (e : Sexp) : Bool :=
+  match tagged? "cls" e with
+  | some (_ :: _ :: _ :: _ :: bm :: _) => bm.bool?.getD false
+  | _ => false
+
+private def renderFlat (f : Flat) : Sexp :=
+  mk "flat" [mk "rs" ((unpairs f.ranges).map ofNat), mk "cs" ((uncat f.cats).map ofNat), ofBool f.neg, ofBool f.anything]
+
+private partial def renderClass : Class → Sexp
+  | .leaf f => mk "cls" [renderFlat f]
+  | .minus f s => mk "cls" [renderFlat f, renderClass s]
+
+private def mkOracle (rest : List Sexp) : Nat → Nat → Bool :=
+  let rows := (lookup "oracle" rest).getD []
+  let tbl : Std.HashMap Nat (Std.HashSet Nat) := rows.foldl (fun m row =>
+    match row.nats? with
+    | some (id :: rs) => m.insert id (rs.foldl (fun s r => s.insert r) ((m.get? id).getD {}))
+    | _ => m) {}
+  fun id ch => match tbl.get? id with
+    | some s => s.contains ch
+    | none => false
+
+private def mkOrbit (rest : List Sexp) : Nat → List Nat :=
+  let rows := (lookup "orbit" rest).getD []
+  let tbl : Std.HashMap Nat (List Nat) := rows.foldl (fun m row =>
+    match row.nats? with
+    | some (i :: es) => m.insert i es
+    | _ => m) {}
+  fun i => (tbl.get? i).getD []
+
+private def mkLower (rest : List Sexp) : Nat → Nat :=
+  let rows := (lookup "lower" rest).getD []
+  let tbl : Std.HashMap Nat Nat := rows.foldl (fun m row =>
+    match row.nats? with
+    | some [i, l] => m.insert i l
+    | _ => m) {}
+  fun i => (tbl.get? i).getD i
+
+private def bits (xs : List Bool) : Sexp := atom (String.ofList ('b' :: xs.map (fun b => if b then '1' else '0')))
+
+private def parseItem (e : Sexp) : Option Item :=
+  match e with
+  | .list (.atom t :: rest) =>
+    match (Sexp.list rest).nats? with
+    | some ns =>
+      if t == "r" then (match ns with | [lo, hi] => some (.range lo hi) | _ => none)
+      else if t == "rs" then some (.ranges (pairs ns))
+      else if t == "nrs" then some (.negRanges (pairs ns))
+      else if t == "cs" then some (.cats (catPairs ns))
+      else none
+    | none => none
+  | _ => none
+
+/-- `(c16 mem <cls> (runes…) (oracle …))` → `(ok bALG bSLOW bFAST)`;
+`(c16 build neg hasSub (items…) (oracle …))` → `(flat …)`;
+`(c16 caseq (levels (neg (items…))…) (orbit (i e…)…) (oracle …))` → `(cls …)`;
+`(c16 neg (rs…))` → complement list of `addNegativeRanges` -/
+def handleC16 (args : List Sexp) : String :=
+  match args with
+  | mode :: rest =>
+    match mode.sym? with
+    | some "mem" =>
+      match rest with
+      | cls :: runes :: more =>
+        match parseClass cls, runes.nats? with
+        | some c, some rs =>
+          let cat := mkOracle more
+          let cb := if topBitmap cls then prepare cat c else c
+          toString (mk "ok" [bits (rs.map (memAlg cat c)), bits (rs.map (charInSlow cat c)), bits (rs.map (charIn cat cb))])
+        | _, _ => "(bad-args)"
+      | _ => "(bad-args)"
+    | some "build" =>
+      match rest with
+      | neg :: hasSub :: items :: more =>
+        match neg.bool?, hasSub.bool?, items.list?.bind (·.mapM parseItem) with
+        | some ng, some hs, some its => toString (renderFlat (build (mkOracle more) ng its hs))
+        | _, _, _ => "(bad-args)"
+      | _ => "(bad-args)"
+    | some "caseq" =>
+      -- (c16 caseq (levels (neg (items…)) (neg (items…)) …) (orbit …) (oracle …)): the class as
+      -- scanCharSet leaves it under IgnoreCase (items, then addLowercase with the `(lower (i l)…)` rows as
+      -- unicode.ToLower; still `building`), copied, case equivalences added
+      match rest with
+      | lv :: more =>
+        let cat := mkOracle more
+        let level (e : Sexp) : Option Flat :=
+          match e with
+          | .list [neg, items] =>
+            match neg.bool?, items.list?.bind (·.mapM parseItem) with
+            | some ng, some its =>
+              some (Flat.addLowercase cat (mkLower more) RegexVerif.Generated.lcTable false (buildItems cat ng its))
+            | _, _ => none
+          | _ => none
+        match (tagged? "levels" lv).bind (·.mapM level) with
+        | some (f :: fs) =>
+          let rec chain (f : Flat) : List Flat → Class
+            | [] => .leaf f
+            | g :: gs => .minus f (chain g gs)
+          toString (renderClass (Class.addCaseEquivalences cat (mkOrbit more) (chain f fs).copy))
+        | _ => "(bad-args)"
+      | _ => "(bad-args)"
+    | some "neg" =>
+      match rest with
+      | [rs] =>
+        match rs.nats? with
+        | some ns => toString (ofNats (unpairs (negGo 0 (pairs ns))))
+        | none => "(bad-args)"
+      | _ => "(bad-args)"
+    | _ => "(bad-op)"
+  | _ => "(bad-op)"
 
 end RegexVerif.Driver
